@@ -71,6 +71,13 @@ def cases(tier, rng):
             c["theory"]["HQ"] = cards.pick(rng, ["POLE", "POLE", "MSBAR"])
             if c["theory"]["HQ"] == "MSBAR":
                 c["theory"].update(Qmc=th["mc"], Qmb=th["mb"], Qmt=th["mt"])
+            if i % 2:
+                c["poison"] = ["nfref", "HQ", "alphas", "Qref", "mc", "mb", "kcThr", "kbThr", "PTO", "FNS", "NfFF", "MaxNfAs"][(i // 6) % 12]
+        if i % 5 == 2:
+            # a lattice listed x by x: several points share a Q2 and the list is neither ascending nor descending in Q2
+            q2s = [cards.logu(rng, 3.0, 3e4) for _ in range(3)]
+            xs_ = [p["x"] for p in pts] + [float(rng.uniform(0.05, 0.6))]
+            c["points"] = [dict(x=float(x_), Q2=float(q_), y=float(rng.uniform(0.1, 0.9)), cls="lattice") for x_ in xs_[:2] for q_ in q2s] + [dict(x=float(xs_[2]), Q2=float(q2s[1]), y=0.5, cls="lattice")]
         out.append(c)
     return out
 
@@ -235,10 +242,35 @@ def run_case(case):
         captured = []
         orig = resmod.ESFResult.apply_pdf
 
-        def spy(self, lhapdf_like, pids, xg, alpha_s_, alpha_qed_, xiR_, xiF_):
+        def spy(self, lhapdf_like, pids, xg, alpha_s_, alpha_qed_, xiR_, xiF_, *more, **kw):  # (further, optional arguments are passed through)
             captured.append((alpha_s_, alpha_qed_, xiR_, xiF_, list(pids), list(xg)))
-            return orig(self, lhapdf_like, pids, xg, alpha_s_, alpha_qed_, xiR_, xiF_)
+            return orig(self, lhapdf_like, pids, xg, alpha_s_, alpha_qed_, xiR_, xiF_, *more, **kw)
 
+        if case.get("poison"):
+            # the same output applied first under a card that differs in ONE field the coupling depends on: whatever the code keeps
+            # between calls about "the coupling of this card" must tell the two cards apart
+            tw = dict(out.theory)
+            f_ = case["poison"]
+            if f_ == "nfref":
+                tw["nfref"] = 4 if tw.get("nfref") != 4 else 5
+            elif f_ == "HQ":
+                tw["HQ"] = "MSBAR" if tw.get("HQ", "POLE") == "POLE" else "POLE"
+                tw.update(Qmc=tw["mc"], Qmb=tw["mb"], Qmt=tw["mt"])
+            elif f_ in ("alphas", "Qref", "mc", "mb", "kcThr", "kbThr"):
+                tw[f_] = tw[f_] * 1.07
+            elif f_ == "PTO":
+                tw["PTO"] = tw["PTO"] + 1 if tw["PTO"] < 2 else tw["PTO"] - 1
+            elif f_ == "FNS":
+                tw["FNS"] = "FFNS" if tw["FNS"] == "ZM-VFNS" else "ZM-VFNS"
+            elif f_ == "NfFF":
+                tw["NfFF"] = tw["NfFF"] + 1 if tw["NfFF"] < 5 else 4
+            elif f_ == "MaxNfAs":
+                tw["MaxNfAs"] = 4 if tw.get("MaxNfAs", 6) != 4 else 5
+            try:
+                out.apply_pdf_theory(p2, tw)
+                classes.add("twin-card-first")
+            except Exception:  # noqa: BLE001
+                pass
         resmod.ESFResult.apply_pdf = spy
         try:
             pred = out.apply_pdf(p1)
